@@ -178,6 +178,37 @@ def tlaps(ctx, module, timeout=900, threads=4):
     return rec
 
 
+def apalache(ctx, module, cinit, init, inv, length, nxt=None, expect_error=False, timeout=1200):
+    """One Apalache run on spec/apalache/<module>.tla (symbolic, integers unbounded).  Used for inductive-invariant checks:
+    a result other than the expected one is DRIFT (it is about the model / the invariant, not about the code)."""
+    d = os.path.join(SPEC, "apalache")
+    out_dir = ctx.path("apalache")
+    cmd = ["timeout", str(timeout), "apalache-mc", "check", "--cinit=" + cinit, "--init=" + init, "--inv=" + inv,
+           "--length=%d" % length, "--out-dir=" + out_dir]
+    if nxt:
+        cmd.append("--next=" + nxt)
+    cmd.append(module + ".tla")
+    t = time.time()
+    try:
+        p = subprocess.run(cmd, cwd=d, stdout=subprocess.PIPE, stderr=subprocess.STDOUT, text=True)
+        out = p.stdout
+    except OSError as e:
+        out = "apalache-mc not available: %s" % e
+    shutil.rmtree(out_dir, ignore_errors=True)
+    ok = "The outcome is: NoError" in out
+    err = "The outcome is: Error" in out
+    rec = {"module": "apalache/" + module, "tool": "apalache", "cinit": cinit, "init": init, "next": nxt or "Next", "inv": inv,
+           "length": length, "outcome": "NoError" if ok else "Error" if err else "did not finish",
+           "expected": "Error" if expect_error else "NoError", "wall_s": round(time.time() - t, 1)}
+    good = err if expect_error else ok
+    log("[apalache] %s %s init=%s next=%s inv=%s length=%d: %s%s, %.1fs"
+        % (module, cinit, init, nxt or "Next", inv, length, rec["outcome"], "" if good else " (UNEXPECTED)", rec["wall_s"]))
+    if not good:
+        ctx.drift.append("Apalache %s: %s/%s/%s gave %s, expected %s" % (module, cinit, init, inv, rec["outcome"], rec["expected"]))
+    ctx.extra.setdefault("symbolic_checks", []).append(rec)
+    return rec
+
+
 def read_ndjson(path):
     out = []
     with open(path) as f:
